@@ -19,6 +19,7 @@ mod c14;
 mod c15;
 mod c16;
 mod c17;
+mod c18;
 mod c19;
 mod gen;
 mod iv;
@@ -193,6 +194,7 @@ fn main() {
         "C15" => c15::run(&ctx),
         "C16" => c16::run(&ctx),
         "C17" => c17::run(&ctx),
+        "C18" => c18::run(&ctx),
         "C19" => c19::run(&ctx),
         _ => {
             eprintln!("unknown property {prop}");
